@@ -58,7 +58,7 @@ Print Assumptions C03_fragment_hypotheses.
 (* ... and through the inline phase: the token tree of the spelled text is the tree it was written from
    (tok_of: paragraphs holding their lines as raw text separated by soft line breaks, one-line paragraphs holding raw text, one Emphasis / Strong, raw text
    (leaf FEm: the span types must also satisfy emph_spans), quotes, lists of one or more items separated by blank lines (same bullet, or same delimiter with any numbers; the items but the last loose) with the marker's attributes) *)
-From Mistletoe Require Import Proofs.EmphSimple Proofs.InertProse Proofs.RefSentence Proofs.LinkSentence Proofs.CodeSpan.
+From Mistletoe Require Import Proofs.EmphSimple Proofs.InertProse Proofs.RefSentence Proofs.LinkSentence Proofs.CodeSpan Proofs.StrikeSentence Proofs.EscSentence Proofs.LeafSpans.
 Theorem C03_fragment_token_tree : forall types span_types keep t f ln st,
   fragment_config types = true -> prose_spans span_types = true -> emph_spans span_types = true -> inert_spans span_types = true -> leaf_spans span_types = true ->
   wf_b t = true -> (depth t <= f)%nat ->
@@ -505,3 +505,23 @@ Theorem C03_fragment_breaks_instance :
   wf_b (FBrk 97 $" " 2 [($"b", 0%nat)]) = false.
 Proof. vm_compute. repeat split; reflexivity. Qed.
 Print Assumptions C03_fragment_breaks_instance.
+
+(* ... and a struck-through phrase, a backslash escape or an image in a one-line paragraph is a LEAF of the fragment (FOne), at every nesting
+   depth: the three sentence theorems under one statement (Proofs/OneInline.v), the HTML (<del>, the escaped character, <img> with the
+   description as alt text) and the Markdown round trip compose with the block laws; leaf_spans = ref_spans, code_spans, strike_spans
+   and esc_spans together, which every configuration meets (C03_fragment_document_configs) *)
+From Mistletoe Require Import Proofs.OneInline.
+Theorem C03_one_in_sentence : forall types fn pre x post,
+  leaf_spans types = true -> inl_ok pre x post = true ->
+  Inline.tokenize_inner types fn (pre ++ inl_text x ++ post) = EmphSentence.raw_if pre ++ [inl_tok x] ++ EmphSentence.raw_if post.
+Proof. exact one_in_sentence. Qed.
+Print Assumptions C03_one_in_sentence.
+
+Theorem C03_fragment_one_instance :
+  let t := FQuote [FOne 119 $"as " (IStrike $"gone") $" now."; FOne 110 $"ot " (IEsc 42%Z) $"emphasis"; FMore (MBullet 45) 1 [FOne 115 $"ee " (IImg $"a cat" $"/c.png") []] false (FItem (MBullet 45) 1 [FPara 122 [] []])] in
+  wf_b t = true /\
+  text_of (spell t) = [ $"> was ~~gone~~ now." ++ [10%Z]; $"> " ++ [10%Z]; $"> not \*emphasis" ++ [10%Z]; $"> " ++ [10%Z]; $"> - see ![a cat](/c.png)" ++ [10%Z]; $"> - z" ++ [10%Z] ] /\
+  html_f (mkHopts false false) true (FOne 115 $"ee " (IImg $"a cat" $"/c.png") []) = $"see <img src=" ++ [34%Z] ++ $"/c.png" ++ [34%Z] ++ $" alt=" ++ [34%Z] ++ $"a cat" ++ [34%Z] ++ $" />" /\
+  wf_b (FOne 97 [] (IEsc 96%Z) []) = false /\ wf_b (FOne 97 [] (IStrike []) []) = false.
+Proof. vm_compute. repeat split; reflexivity. Qed.
+Print Assumptions C03_fragment_one_instance.
